@@ -21,10 +21,13 @@ class CPMCModel:
         self.n = n_sites
         self.nelec = tuple(nelec)
         self.sec = fock.Sector(n_sites, nelec)
-        self.K = np.asarray(K, dtype=float)
+        K = np.asarray(K, dtype=float)
+        # one-body (hopping + possibly spin-dependent pinning field) matrix per spin
+        self.K = np.array([K, K]) if K.ndim == 2 else K
         self.U, self.dt = float(U), float(dt)
         self.psi = np.asarray(psi)
-        self.expK = scipy.linalg.expm(-self.dt * self.K / 2.0)
+        self.expK2 = np.array([scipy.linalg.expm(-self.dt * self.K[s] / 2.0) for s in (0, 1)])
+        self.expK = self.expK2[0]
         g = math.acosh(math.exp(self.dt * self.U / 2.0))
         c = math.exp(-self.dt * self.U / 2.0)
         # hs[x] = (factor on the up row, factor on the down row)
@@ -34,7 +37,7 @@ class CPMCModel:
         return np.vdot(self.psi, self.sec.det_state(up, dn))
 
     def one_body(self, up, dn):
-        return self.expK @ up, self.expK @ dn
+        return self.expK2[0] @ up, self.expK2[1] @ dn
 
     def site_options(self, up, dn, i):
         out = []
@@ -127,7 +130,7 @@ class CPMCModel:
     def exact_target(self, up, dn, ov, e_shift):
         """exp(dt E) exp(-dt K/2) prod_i exp(-dt U n_i,up n_i,dn) exp(-dt K/2) |phi> / <psi|phi>"""
         sec = self.sec
-        eK = scipy.linalg.expm(-self.dt / 2.0 * sec.one_body(self.K))
+        eK = scipy.linalg.expm(-self.dt / 2.0 * sec.one_body(self.K[0], self.K[1]))
         D = sum(sec.number_product(i) for i in range(self.n))
         eU = scipy.linalg.expm(-self.dt * self.U * D)
         phi = sec.det_state(up, dn)
